@@ -93,3 +93,22 @@ Proof.
     unfold go_nil, red_Nil, context_Canceled. rewrite orb_assoc in Hb.
     destruct (arg =? 0), (arg =? 3), (arg =? 4); simpl in *; auto.
 Qed.
+
+Lemma rpc_benign c : 0 <= c <= 16 -> benign 5 c = true -> rpc_mark c = true.
+Proof.
+  intros Hc Hb. unfold benign, rpc_mark in *. apply andb_true_iff in Hb as [H1 H2].
+  rewrite H1. simpl. assert (c / 100 = 0) by lia. assert (Hm : c mod 100 = c) by (apply Z.mod_small; lia).
+  rewrite Hm in *. rewrite link_grpc by assumption. exact H2.
+Qed.
+
+(* ---- RPC breaker interceptors go through breaker.DoWithAcceptable(name, ..., codes.Acceptable);
+        WithCodeResponseWriter stores Code only in WriteHeader ---- *)
+Lemma link_srv_int_calls : C01_Gen.srv_int_calls = ["handler"; "return"; "breaker.DoWithAcceptable"; "return"]%string.
+Proof. reflexivity. Qed.
+Lemma link_cli_int_calls :
+  C01_Gen.cli_int_calls = ["conn.Target"; "path.Join"; "invoker"; "return"; "breaker.DoWithAcceptable"; "return"]%string.
+Proof. reflexivity. Qed.
+Lemma link_cw_calls :
+  C01_Gen.cw_writeheader_calls = ["w.Writer.WriteHeader"]%string /\
+  C01_Gen.cw_write_calls = ["w.Writer.Write"; "return"]%string.
+Proof. split; reflexivity. Qed.
